@@ -32,7 +32,8 @@ META = {
                 "C02.3 sub-configurations linked to the parent before load/store",
                 "C02.4 no instance methods / unrequested virtual fields / raw values in the tree",
                 "C02.5 load_tree decodes with to_python before the store; dumps/loads/save/load glue",
-                "C02.6 format wiring (shared with C04.1-4,6)"],
+                "C02.6 format wiring (shared with C04.1-4,6)",
+                "C02.7 a non-empty secret is written as the record of this call's KeyFile.encrypt under cfg._keyfile (shared with C03.1)"],
     "not_decided": ["equality of the re-loaded values for all states in all five formats (json/yaml/bson/minidom/pickle inverse laws)",
                     "scalar codec inverse pairs are decided under C05"],
 }
@@ -296,6 +297,9 @@ def check(ctx):
 
     # ---------------------------------------------------------------- C02.3
     check_links(ctx, "link")
+    # C02.7 an encrypted value re-loads with the configuration's key file only if it was encrypted with it, in this call
+    from .c03 import check_secret_encrypted_now
+    check_secret_encrypted_now(ctx)
     check_container_items_encoded(ctx)
 
     # ---------------------------------------------------------------- C02.6 "in every format": the format wiring decided
